@@ -61,6 +61,7 @@ fn main() {
     if args.len() >= 2 && args[1] == "--c09-child" {
         // hidden mode of the C09 check: see c09.rs
         return c09::child_main(&args[2..]);
+    }
     // hidden modes: C19 stress runs (sanity test of the runtime assumptions)
     if args.len() == 6 && args[1] == "--c19-stress" {
         std::process::exit(c19::stress(&args[2..]));
